@@ -1108,3 +1108,133 @@ class PopAllSpec(JoinLoopSpec):
             return [(run.obj(run.obj(st)["user_stack"])["items"], "seq")]
 
         return {0: Loop(inv, facts=facts, modifies=modifies)}
+
+
+# ============================================================================ ParserState.parse_trivia (interpreter)
+tvl_st = z3.Function("tvl_st", LS, LS)
+tvl_prs = z3.Function("tvl_prs", LS, SeqPair)
+WS, CM, SKIP = z3.StringVal("WHITESPACE"), z3.StringVal("COMMENT"), z3.StringVal("SKIP")
+
+
+def tvl_unfold(L, has_ws: bool, has_cm: bool):  # noqa: N803
+    """(WHITESPACE | COMMENT)*, ordered and greedy; every attempt is all-or-nothing (DESIGN A.3)."""
+    st_stop, prs_stop = L, EMPTY_P
+    L_after_ws = L  # noqa: N806
+    cases = []
+    if has_ws:
+        ok, L1, P = R[0](WS, L), R[1](WS, L), R[2](WS, L)  # noqa: N806
+        cases.append((ok, L1, P))
+        L_after_ws = restored(L, L1)  # noqa: N806
+    if has_cm:
+        ok2, L2, P2 = R[0](CM, L_after_ws), R[1](CM, L_after_ws), R[2](CM, L_after_ws)  # noqa: N806
+        cases.append((ok2, L2, P2))
+        st_stop = restored(L_after_ws, L2)
+    else:
+        st_stop = L_after_ws
+    st, prs = st_stop, prs_stop
+    for ok, L1, P in reversed(cases):  # noqa: N806
+        st = z3.If(ok, tvl_st(L1), st)
+        prs = z3.If(ok, z3.Concat(P, tvl_prs(L1)), prs)
+    return [tvl_st(L) == st, tvl_prs(L) == prs]
+
+
+class ParseTriviaSpec(RulesMixin, OpSpec):
+    """ParserState.parse_trivia for one configuration of (SKIP?, WHITESPACE?, COMMENT?)."""
+
+    cls = PSTATE
+    method = "parse_trivia"
+    trivia_oracle = False  # this *is* the function the tv oracle stands for
+
+    def __init__(self, skip: bool, ws: bool, cm: bool):
+        self.defined = {"SKIP": skip, "WHITESPACE": ws, "COMMENT": cm}
+        super().__init__()
+        self.label = f"{PSTATE}.parse_trivia[skip={int(skip)},ws={int(ws)},cm={int(cm)}]"
+
+    def setup(self, run: Run):
+        st = self.mk_state(run)
+        L0 = self.pack(run, st)  # noqa: N806
+        for f in wf_state(L0, True):
+            run.assume(f)
+        P0 = run.fresh_t("P0", "seq:pair")  # noqa: N806
+        pairs = run.new_list("pair", P0, fresh=False)
+        run.pre = {"st": st, "L0": L0, "P0": P0, "pairs": pairs, "snaps": self.snaps(run, st), "me": st}
+        if self.defined["SKIP"]:
+            # the fused SKIP rule is built by the optimizer as a `*` repetition: it cannot fail
+            run.assume(R[0](SKIP, L0), "the optimizer-built SKIP rule never fails (it is a * repetition; checked in C02)")
+        return st, [pairs], {}
+
+    def K(self, run, L0):  # noqa: N802, N803
+        d = self.defined
+        atomic = lget(L0, "atom") > 0
+        if d["SKIP"]:
+            st, prs = R[1](SKIP, L0), z3.If(R[0](SKIP, L0), R[2](SKIP, L0), EMPTY_P)
+        elif not d["WHITESPACE"] and not d["COMMENT"]:
+            st, prs = L0, EMPTY_P
+        else:
+            L1 = lset(L0, sup=z3.BoolVal(True))  # noqa: N806
+            st, prs = lset(tvl_st(L1), sup=z3.BoolVal(False)), tvl_prs(L1)
+        return None, z3.If(atomic, L0, st), z3.If(atomic, EMPTY_P, prs)
+
+    def post(self, run: Run, pre: Any, out: Any) -> None:
+        L0, P0 = pre["L0"], pre["P0"]  # noqa: N806
+        _, L1, prs = self.K(run, L0)  # noqa: N806
+        Lc = self.cur(run)  # noqa: N806
+        for f in FIELDS:
+            run.oblige(f"K.st.{f}", lget(Lc, f) == lget(L1, f))
+        run.oblige("K.pairs", self.pairs_now(run) == z3.Concat(P0, prs))
+        run.oblige("frame.snaps", self.snaps_same(run))
+        for i, g in enumerate(G(L0, z3.BoolVal(True), Lc, prs)[:-1]):
+            run.oblige(f"G.{i}", g)
+
+    def mk_loops(self):
+        spec = self
+        d = self.defined
+
+        def start(run):
+            return lset(run.pre["L0"], sup=z3.BoolVal(True))
+
+        def facts(run, g):
+            Lc = spec.cur(run)  # noqa: N806
+            out = tvl_unfold(Lc, d["WHITESPACE"], d["COMMENT"])
+            if d["WHITESPACE"]:
+                out.append(G_inst(R, WS, Lc))
+                if d["COMMENT"]:
+                    out.append(G_inst(R, CM, restored(Lc, R[1](WS, Lc))))
+            elif d["COMMENT"]:
+                out.append(G_inst(R, CM, Lc))
+            return out
+
+        def inv(run, g):
+            L1, P0 = start(run), run.pre["P0"]  # noqa: N806
+            Lc = spec.cur(run)  # noqa: N806
+            acc = z(g["acc"])
+            return [
+                ("snaps", spec.snaps_same(run)),
+                ("pairs", spec.pairs_now(run) == z3.Concat(P0, acc)),
+                ("children", z3.Length(spec.lseq(run, "children")) == 0),
+                ("rest", z3.And(tvl_st(Lc) == tvl_st(L1), z3.Concat(acc, tvl_prs(Lc)) == tvl_prs(L1))),
+                ("wf", z3.And(*wf_state(Lc, True), *G(L1, z3.BoolVal(True), Lc, EMPTY_P)[:6])),
+            ]
+
+        def entry(run):
+            return {"acc": Sym(EMPTY_P, "seq:pair")}
+
+        def back(run, g):
+            P0 = run.pre["P0"]  # noqa: N806
+            now = spec.pairs_now(run)
+            return {"acc": Sym(z3.SubSeq(now, z3.Length(P0), z3.Length(now) - z3.Length(P0)), "seq:pair")}
+
+        def modifies(run):
+            return spec.state_cells(run) + spec.local_lists(run, "children")
+
+        return {0: Loop(inv, facts=facts, modifies=modifies, ghosts={"acc": "seq:pair"}, entry=entry, back=back)}
+
+
+def trivia_specs():
+    return [
+        ParseTriviaSpec(True, False, False),
+        ParseTriviaSpec(False, False, False),
+        ParseTriviaSpec(False, True, False),
+        ParseTriviaSpec(False, False, True),
+        ParseTriviaSpec(False, True, True),
+    ]
